@@ -1749,11 +1749,22 @@ class VM:
         # Run it to completion in a nested loop that stops when this call returns
         return self._call_callback(func, args, this_val)
 
+    def _arm_regex(self, regex: JSRegExp) -> None:
+        """A match runs against the deadline of the evaluation that starts it,
+        not of the one that created the RegExp object."""
+        if self.time_limit is None:
+            regex._internal._poll_callback = None
+        else:
+            regex._internal._poll_callback = (
+                lambda: time.monotonic() - self.start_time > self.time_limit
+            )
+
     def _make_regexp_method(self, re: JSRegExp, method: str) -> Any:
         """Create a bound RegExp method."""
 
         def test_fn(*args):
             string = to_string(args[0]) if args else "undefined"
+            self._arm_regex(re)
             try:
                 return re.test(string)
             except RegexTimeoutError:
@@ -1765,6 +1776,7 @@ class VM:
 
         def exec_fn(*args):
             string = to_string(args[0]) if args else "undefined"
+            self._arm_regex(re)
             try:
                 return re.exec(string)
             except RegexTimeoutError:
@@ -2053,6 +2065,7 @@ class VM:
             if sep is UNDEFINED:
                 parts = [s]
             elif isinstance(sep, JSRegExp):
+                self._arm_regex(sep)
                 # Split with regex (RegExp.prototype[@@split]): try to match at every
                 # position; an empty match at the end of the previous piece is skipped
                 try:
@@ -2223,6 +2236,7 @@ class VM:
                 return "".join(out)
 
             if isinstance(pattern, JSRegExp):
+                self._arm_regex(pattern)
                 # Replace with regex using microjs.regex
                 try:
                     regex_internal = pattern._internal
@@ -2288,6 +2302,7 @@ class VM:
             pattern = args[0] if args else ""
 
             if isinstance(pattern, JSRegExp):
+                self._arm_regex(pattern)
                 # replaceAll with regex requires global flag
                 if "g" not in pattern._flags:
                     raise JSTypeError("replaceAll called with a non-global RegExp")
@@ -2363,6 +2378,7 @@ class VM:
 
             is_sticky = False
             if isinstance(pattern, JSRegExp):
+                self._arm_regex(pattern)
                 regex_internal = pattern._internal
                 is_global = "g" in pattern._flags
                 is_sticky = "y" in pattern._flags
@@ -2442,6 +2458,7 @@ class VM:
             from .regex import RegExp as InternalRegExp
 
             if isinstance(pattern, JSRegExp):
+                self._arm_regex(pattern)
                 regex_internal = pattern._internal
             else:
                 # Convert string to regex using microjs.regex
